@@ -713,6 +713,22 @@ func boolResultTargets(v ssa.Value, want bool, at ssa.Instruction, cut *Cut, rx 
 		if x.Op == token.NOT {
 			return boolResultTargets(x.X, !want, at, cut, rx, seen)
 		}
+		// a result spilled into a variable because of a defer: every `return v, …` is a store into it
+		if al, ok := x.X.(*ssa.Alloc); ok && x.Op == token.MUL {
+			var out []ssa.Instruction
+			n := 0
+			if refs := al.Referrers(); refs != nil {
+				for _, r := range *refs {
+					if st, ok := r.(*ssa.Store); ok && st.Addr == ssa.Value(al) {
+						n++
+						out = append(out, boolResultTargets(st.Val, want, st, cut, rx, seen)...)
+					}
+				}
+			}
+			if n > 0 {
+				return out
+			}
+		}
 	case *ssa.Phi:
 		var out []ssa.Instruction
 		for i, e := range x.Edges {
